@@ -40,6 +40,8 @@ def shape_findings(board, length, width, max_reward, force_down):
 def work_shape(shard):
     seeds, sizes = shard
     out = {"calls": 0, "violations": [], "n_violations": 0, "samples": [], "loose": {}, "tiles": {}}
+    prev = None
+    last_fd = None
     for seed in seeds:
         for (w, l) in sizes:
             for mr in (1, 2, 6):
@@ -58,9 +60,13 @@ def work_shape(shard):
                         if why:
                             out["n_violations"] += 1
                             if len(out["violations"]) < 2:
+                                hist = [h for h in (last_fd, prev) if h is not None]
                                 out["violations"].append(mk("C15/shape-or-range", {"leg": "shape", "seed": seed, "length": l, "width": w, "prob_loose_tile": p,
-                                                            "max_reward": mr, "force_down": fd}, repr(b)[:300], None,
+                                                            "max_reward": mr, "force_down": fd, "earlier_calls_in_this_process": hist}, repr(b)[:300], None,
                                                             "gen_rnd_board(seed=%d, length=%d, width=%d, p=%r, max_reward=%d, force_down=%s): %s" % (seed, l, w, p, mr, fd, why)))
+                        prev = [seed, l, w, p, mr, fd]
+                        if fd:
+                            last_fd = prev
     out["samples"].append({"leg": "shape", "seed": seeds[0], "sizes": len(sizes)})
     return out
 
@@ -338,7 +344,15 @@ def replay(case):
     leg = i["leg"]
     if leg == "shape":
         b = G.gen_rnd_board(i["seed"], i["length"], i["width"], i["prob_loose_tile"], i["max_reward"], i["force_down"])
-        return shape_findings(b, i["length"], i["width"], i["max_reward"], i["force_down"])
+        why = shape_findings(b, i["length"], i["width"], i["max_reward"], i["force_down"])
+        if why:
+            return why
+        # not reproducible in isolation: replay the calls that preceded it in the exploring process (history dependence)
+        for h in i.get("earlier_calls_in_this_process", []):
+            G.gen_rnd_board(*h)
+        b = G.gen_rnd_board(i["seed"], i["length"], i["width"], i["prob_loose_tile"], i["max_reward"], i["force_down"])
+        why = shape_findings(b, i["length"], i["width"], i["max_reward"], i["force_down"])
+        return ("after earlier calls %r: %s" % (i.get("earlier_calls_in_this_process"), why)) if why else None
     if leg == "reproducibility":
         f, _, _, _ = explore_reproducibility(len(i["sequence"]))
         return f[0]["explanation"] if f else None
